@@ -995,7 +995,7 @@ func ByteLane(v ssa.Value) (src ssa.Value, lane, srcBytes int, ok bool) { return
 func (e *Ext) fixedAtoms(v ssa.Value, w int, order string, pos token.Pos) []Atom {
 	one := func() []Atom {
 		f, ex, ft := e.ValueSrc(v)
-		return []Atom{{Kind: "fixed", Width: w, Order: order, Field: f, Expr: ex, Type: tstr(ft), Pos: pos}}
+		return []Atom{{Kind: "fixed", Width: w, Order: order, Field: f, Expr: ex, Type: tstr(ft), Pos: pos, Val: v}}
 	}
 	type part struct {
 		v     ssa.Value
